@@ -110,3 +110,16 @@ func verifPBChannelUpdate(x *client.ChannelUpdateMsg) (y client.ChannelUpdateMsg
 	y, toErr = ToChannelUpdate(p)
 	return y, nil, toErr
 }
+
+func verifPBBaseChannelProposal(x client.BaseChannelProposal) (y client.BaseChannelProposal, fromErr, toErr error) {
+	p, err := FromBaseChannelProposal(x)
+	if err != nil {
+		return y, err, nil
+	}
+	y, toErr = ToBaseChannelProposal(p)
+	return y, nil, toErr
+}
+
+func verifPBBaseChannelProposalAcc(x client.BaseChannelProposalAcc) client.BaseChannelProposalAcc {
+	return ToBaseChannelProposalAcc(FromBaseChannelProposalAcc(x))
+}
